@@ -204,11 +204,11 @@ def graph_configs(cx):
            [driver_consts(g2, 2, ms, 10 * 10**9, 2, "udp")]),
           ("round-robin+random n=3", model_consts(k, g3, ["round-robin", "random"], Callers='{"p1","p2","p3"}', MaxSel=5 if not big else 7),
            [driver_consts(g3, 1, ms, ms, 3, "tcp"), driver_consts(g3, 1, ms, ms, 3, "udp")])]
+    gs += [("probing/tcp n=2 T=3, one worker, 7 ns unit", model_consts(k, g2, PROBING, T=3, UnitNs=7, Alpha=tla_alpha(2, [1, 2, 3]), Conc=1, MaxRounds=2 if not big else 3),
+            [driver_consts(g2, 3, 7, 1000, 1, "tcp")])]
     if big:
         gs += [("probing/tcp n=3, two workers", model_consts(k, g3, PROBING, T=2, Alpha=tla_alpha(3, [1, 2]), Conc=2, MaxRounds=3),
                 [driver_consts(g3, 2, ms, 10 * 10**9, 2, "tcp")]),
-               ("probing/tcp n=2 T=3, one worker, 7 ns unit", model_consts(k, g2, PROBING, T=3, UnitNs=7, Alpha=tla_alpha(2, [1, 2, 3]), Conc=1, MaxRounds=3),
-                [driver_consts(g2, 3, 7, 1000, 1, "tcp")]),
                ("round-robin+random, a member listed twice", model_consts(k, ["a", "b", "a"], ["round-robin", "random"], Callers='{"p1","p2"}', MaxSel=7),
                 [driver_consts(["a", "b", "a"], 1, ms, ms, 3, "tcp")])]
     return gs
@@ -257,6 +257,8 @@ def script_plans(cx):
         udp = (i % 5) in (1, 3) if not big else (i % 4 == 1)
         group = NAMES[:n] if i % 2 == 0 else rng.sample(NAMES, n)
         prof = rng.choice(["defaults", "ms", "serial", "ns"]) if not udp else rng.choice(["defaults", "ms"])
+        if not big and i == 2:
+            prof = "serial"     # fewer workers than members: probe jobs queue behind each other
         T = rng.choice([4, 5]) if prof == "defaults" else rng.choice([3, 4, 5, 6])
         conc = n
         if prof == "defaults":
